@@ -46,7 +46,7 @@ pub fn scripts(thorough: bool) -> Vec<Script> {
     if thorough {
         v.push(Script { name: "192GiB-447 + W30^64 (one over the limit)", zero_prefix: MAX - 447, bytes: corpus::repeat(&corpus::W[30], 64) });
         v.push(Script { name: "48GiB border + W29^65", zero_prefix: (48u64 << 30) - 200, bytes: corpus::repeat(&corpus::W[29], 65) });
-        v.push(Script { name: "W1^66 + 3000000 zeros (piece-rich head, empty tail)", zero_prefix: 0, bytes: { let mut b = corpus::repeat(&corpus::W[1], 66); b.extend(vec![0u8; 3_000_000]); b } });
+        v.push(Script { name: "W1^66 + 400000 zeros (piece-rich head, empty tail)", zero_prefix: 0, bytes: { let mut b = corpus::repeat(&corpus::W[1], 66); b.extend(vec![0u8; 400_000]); b } });
         v.push(Script { name: "W0^200 W7^40", zero_prefix: 0, bytes: { let mut b = corpus::repeat(&corpus::W[0], 200); b.extend(corpus::repeat(&corpus::W[7], 40)); b } });
     }
     v
